@@ -8,7 +8,7 @@ list (padding stripped). API per problem:
     objective(inst, actions)  -> float (the library's sign convention: reward)
     step_bound(inst)          -> int
 
-Float geometry follows DESIGN 3.5: violated iff excess > TAU*max(1,|limit|); within the band
+Float geometry follows DESIGN 3.5: violated iff excess > max(TAU, 0.2*TAU*|limit|); within the band
 -> ambiguous. Rational quantities (k/Q demands) are compared as integers.
 """
 from __future__ import annotations
@@ -34,7 +34,9 @@ def _f32_exact(x):
 
 def cmp_le(value, limit, tau=TAU, exact_ok=False):
     """'ok' | 'ambiguous' | 'violated' for the constraint value <= limit (float geometry)."""
-    band = tau * max(1.0, abs(limit)) if math.isfinite(limit) else 0.0
+    # band: tau at unit scale; at large magnitudes (unscaled CVRPTW: times ~500) a fifth of tau per unit, i.e. 2e-5*|limit|:
+    # a float32 clock / length accumulated over <= 100 legs is off by at most ~100 * ulp(|limit|)/2 = 6e-6*|limit|
+    band = max(tau, 0.2 * tau * abs(limit)) if math.isfinite(limit) else 0.0
     if exact_ok and value == limit and _f32_exact(value):
         return "ok"  # equality in exact (dyadic) arithmetic: the constraint is met, and must be treated as met
     if value > limit + band:
@@ -336,8 +338,13 @@ class PCTSP:
 
     @staticmethod
     def extract(td_in, td0, b, env):
-        return dict(locs=td0["locs"][b].tolist(), real_prize=td0["real_prize"][b].tolist(), penalty=td0["penalty"][b].tolist(),
-                    required=float(td0["prize_required"][b]), q=rational_scale(td0["real_prize"][b].tolist() + [float(td0["prize_required"][b])], (1, 2, 4, 8, 16, 32, 64)))
+        # the prize actually collected at a node is instance data: the deterministic prize for PCTSP, the stochastic prize
+        # (revealed on visit) for SPCTSP - read from the instance as handed over, not from the env's reset state
+        key = "stochastic_prize" if getattr(env, "name", "") == "spctsp" or getattr(env, "stochastic", False) else "deterministic_prize"
+        src = td_in if key in td_in.keys() else td0
+        real = [0.0] + [float(x) for x in src[key][b].tolist()]
+        return dict(locs=td0["locs"][b].tolist(), real_prize=real, penalty=td0["penalty"][b].tolist(),
+                    required=float(td0["prize_required"][b]), q=rational_scale(real + [float(td0["prize_required"][b])], (1, 2, 4, 8, 16, 32, 64)))
 
     @classmethod
     def violations(cls, inst, actions):
